@@ -30,6 +30,8 @@ Definition is_nl (c : ascii) := Ascii.eqb c ch_nl.
 
 (** which attribute of the task the arrayer's grouping key (JobDescription) starts with *)
 Inductive key_field := KFullname | KName.
+(** how get_oneshot_command stages the pickled [args, kwargs] of a single job *)
+Inductive stage_mode := Overwrite | IfAbsent.
 
 (** ** Configuration extracted from the source by translate/tr_scratch.py *)
 Record cfg := {
@@ -38,7 +40,8 @@ Record cfg := {
   arr_out_elem : str; arr_err_elem : str;   (* per-job file names listed in the array output / error spec files *)
   arr_suffix : str;                                              (* ARRAY_JOB_SUFFIX *)
   env_vars : list str;                                           (* lookup order of get_job_array_index *)
-  key_task : key_field                                           (* JobDescription.task_name *)
+  key_task : key_field;                                          (* JobDescription.task_name *)
+  stage_input : stage_mode                                       (* get_oneshot_command, non-array branch *)
 }.
 
 Definition shipped : cfg := {|
@@ -47,14 +50,21 @@ Definition shipped : cfg := {|
   arr_out_elem := lit "output"; arr_err_elem := lit "error";
   arr_suffix := lit "array";
   env_vars := [lit "AWS_BATCH_JOB_ARRAY_INDEX"; lit "JOB_COMPLETION_INDEX"; lit "BATCH_TASK_INDEX"];
-  key_task := KFullname
+  key_task := KFullname;
+  stage_input := Overwrite
 |}.
+
+(** the variant that skips staging when an input file is already there *)
+Definition if_absent (c : cfg) : cfg := {|
+  f_input := f_input c; f_output := f_output c; f_error := f_error c; f_hashes := f_hashes c;
+  d_jobs := d_jobs c; d_array := d_array c; arr_out_elem := arr_out_elem c; arr_err_elem := arr_err_elem c;
+  arr_suffix := arr_suffix c; env_vars := env_vars c; key_task := key_task c; stage_input := IfAbsent |}.
 
 (** the variant in which jobs are grouped by the short task name only *)
 Definition by_name (c : cfg) : cfg := {|
   f_input := f_input c; f_output := f_output c; f_error := f_error c; f_hashes := f_hashes c;
   d_jobs := d_jobs c; d_array := d_array c; arr_out_elem := arr_out_elem c; arr_err_elem := arr_err_elem c;
-  arr_suffix := arr_suffix c; env_vars := env_vars c; key_task := KName |}.
+  arr_suffix := arr_suffix c; env_vars := env_vars c; key_task := KName; stage_input := stage_input c |}.
 
 (** ** Array grouping (job_array.py JobDescription / JobArrayer, aws_batch.py _submit_array_job) *)
 Record tinfo := { t_ns : str; t_name : str; t_opts : str }.
@@ -235,7 +245,12 @@ Section Proto.
   (** *** Writers (executor side) *)
   (* get_oneshot_command, non-array branch: pickle_dump([args, kwargs]) to jobs/<hash>/input *)
   Definition write_single (c : cfg) (prefix : str) (j : job) (fs : fs_t) : fs_t :=
-    fs_write fs (job_file c prefix (j_hash j) (f_input c)) (BPickle (dump (Seq [j_args j; j_kwargs j]))).
+    let p := job_file c prefix (j_hash j) (f_input c) in
+    let b := BPickle (dump (Seq [j_args j; j_kwargs j])) in
+    match stage_input c with
+    | Overwrite => fs_write fs p b
+    | IfAbsent => match fs_read fs p with Some _ => fs | None => fs_write fs p b end
+    end.
 
   Definition write_array (c : cfg) (prefix aid : str) (jobs : list job) (include_hash : bool) (fs : fs_t) : fs_t :=
     let fs1 := fs_write fs (array_file c prefix aid (f_input c))
